@@ -1,9 +1,10 @@
 (* C13 - closed forms of the gammatone.sampled numerator: the (eta-1)-fold application of
    num <- -z * (num.diff() * den - order * num * den.diff()) to num = n0 + n1 zinv over
-   den = 1 + d1 zinv + d2 zinv^2, for eta = 2, 3, 4 (polynomial identities, proved by ring).
+   den = 1 + d1 zinv + d2 zinv^2, for eta = 2 .. 6 (polynomial identities; eta = 1 is the
+   identity: no iteration, proved by ring).
    Used by the enclosure goals of the first section: unfolding the iteration instead blows
    the term up exponentially. *)
-From Coq Require Import Reals List.
+From Coq Require Import Reals List Arith.
 From AL Require Import C13.Model.
 Import ListNotations.
 Open Scope R_scope.
@@ -11,6 +12,17 @@ Open Scope R_scope.
 Ltac sampled_closed :=
   cbv beta iota zeta delta [sampled_iter sampled_step mul_negz padd pscale pmul pddz pddz_from map tl INR];
   repeat (apply f_equal2; [ring|]); reflexivity.
+
+(* the last iteration can be peeled off: each closed form follows from the previous one by ONE
+   step (unfolding k nested steps at once is exponential in k) *)
+Lemma sampled_iter_last den : forall n num o,
+  sampled_iter den num o (S n) = sampled_step den (sampled_iter den num o n) (o + n).
+Proof.
+  induction n as [|m IH]; intros num o.
+  - cbn [sampled_iter]. rewrite Nat.add_0_r. reflexivity.
+  - change (sampled_iter den num o (S (S m))) with (sampled_iter den (sampled_step den num o) (S o) (S m)).
+    rewrite IH. cbn [sampled_iter]. rewrite Nat.add_succ_r. reflexivity.
+Qed.
 
 Lemma sampled_closed_2 n0 n1 d1 d2 :
   sampled_iter [1; d1; d2] [n0; n1] 1 1 =
@@ -28,7 +40,7 @@ Lemma sampled_closed_3 n0 n1 d1 d2 :
    3 * n0 * d1 * d2 - 6 * n1 * d2;
    4 * n0 * d2 ^ 2 - n1 * d1 * d2;
    n1 * d2 ^ 2].
-Proof. sampled_closed. Qed.
+Proof. rewrite sampled_iter_last, sampled_closed_2. cbv [Nat.add]. sampled_closed. Qed.
 
 Lemma sampled_closed_4 n0 n1 d1 d2 :
   sampled_iter [1; d1; d2] [n0; n1] 1 3 =
@@ -40,5 +52,35 @@ Lemma sampled_closed_4 n0 n1 d1 d2 :
    - 5 * n0 * d1 * d2 ^ 2 - n1 * d1 ^ 2 * d2 + 23 * n1 * d2 ^ 2;
    - 8 * n0 * d2 ^ 3 + 4 * n1 * d1 * d2 ^ 2;
    - n1 * d2 ^ 3].
-Proof. sampled_closed. Qed.
+Proof. rewrite sampled_iter_last, sampled_closed_3. cbv [Nat.add]. sampled_closed. Qed.
+
+Lemma sampled_closed_5 n0 n1 d1 d2 :
+  sampled_iter [1; d1; d2] [n0; n1] 1 4 =
+  [0;
+   - n0 * d1 + n1;
+   11 * n0 * d1 ^ 2 - 16 * n0 * d2 - 11 * n1 * d1;
+   - 11 * n0 * d1 ^ 3 + 77 * n0 * d1 * d2 + 11 * n1 * d1 ^ 2 - 76 * n1 * d2;
+   n0 * d1 ^ 4 - 58 * n0 * d1 ^ 2 * d2 + 176 * n0 * d2 ^ 2 - n1 * d1 ^ 3 + 47 * n1 * d1 * d2;
+   5 * n0 * d1 ^ 3 * d2 - 115 * n0 * d1 * d2 ^ 2 - 10 * n1 * d1 ^ 2 * d2 + 230 * n1 * d2 ^ 2;
+   11 * n0 * d1 ^ 2 * d2 ^ 2 - 176 * n0 * d2 ^ 3 - n1 * d1 ^ 3 * d2 + 47 * n1 * d1 * d2 ^ 2;
+   - n0 * d1 * d2 ^ 3 + 11 * n1 * d1 ^ 2 * d2 ^ 2 - 76 * n1 * d2 ^ 3;
+   16 * n0 * d2 ^ 4 - 11 * n1 * d1 * d2 ^ 3;
+   n1 * d2 ^ 4].
+Proof. rewrite sampled_iter_last, sampled_closed_4. cbv [Nat.add]. sampled_closed. Qed.
+
+Lemma sampled_closed_6 n0 n1 d1 d2 :
+  sampled_iter [1; d1; d2] [n0; n1] 1 5 =
+  [0;
+   - n0 * d1 + n1;
+   26 * n0 * d1 ^ 2 - 32 * n0 * d2 - 26 * n1 * d1;
+   - 66 * n0 * d1 ^ 3 + 288 * n0 * d1 * d2 + 66 * n1 * d1 ^ 2 - 237 * n1 * d2;
+   26 * n0 * d1 ^ 4 - 474 * n0 * d1 ^ 2 * d2 + 832 * n0 * d2 ^ 2 - 26 * n1 * d1 ^ 3 + 428 * n1 * d1 * d2;
+   - n0 * d1 ^ 5 + 160 * n0 * d1 ^ 3 * d2 - 1290 * n0 * d1 * d2 ^ 2 + n1 * d1 ^ 4 - 174 * n1 * d1 ^ 2 * d2 + 1682 * n1 * d2 ^ 2;
+   - 6 * n0 * d1 ^ 4 * d2 + 414 * n0 * d1 ^ 2 * d2 ^ 2 - 2112 * n0 * d2 ^ 3;
+   - 14 * n0 * d1 ^ 3 * d2 ^ 2 + 392 * n0 * d1 * d2 ^ 3 - n1 * d1 ^ 4 * d2 + 174 * n1 * d1 ^ 2 * d2 ^ 2 - 1682 * n1 * d2 ^ 3;
+   - 46 * n0 * d1 ^ 2 * d2 ^ 3 + 832 * n0 * d2 ^ 4 + 26 * n1 * d1 ^ 3 * d2 ^ 2 - 428 * n1 * d1 * d2 ^ 3;
+   51 * n0 * d1 * d2 ^ 4 - 66 * n1 * d1 ^ 2 * d2 ^ 3 + 237 * n1 * d2 ^ 4;
+   - 32 * n0 * d2 ^ 5 + 26 * n1 * d1 * d2 ^ 4;
+   - n1 * d2 ^ 5].
+Proof. rewrite sampled_iter_last, sampled_closed_5. cbv [Nat.add]. sampled_closed. Qed.
 
